@@ -107,13 +107,17 @@ Definition sites_ok (sites : list (N * N)) : bool :=
    (POST /threads/{id}/messages), the closing append_run_ended on that thread. *)
 Inductive mop :=
 | MOp (o : cop)
-| MRun (ts : list etype) (link : option nat).
+| MRun (ts : list etype) (link : option nat)
+(* one call that makes several locked appends on one thread, e.g. a compaction job run to completion
+   (compaction_auto_v1: job_spawned, checkpoint_created .., job_ended; the kinds are what the call appended) *)
+| MAppends (th : nat) (ts : list etype).
 
 Definition prog_of_mop (l : log) (o : mop) : list mstep :=
   match o with
   | MOp c => prog_of_cop l c
   | MRun ts None => session_prog ts
   | MRun ts (Some th) => session_prog ts ++ MTarget (nth_thread l th) :: locked_append EContinuityRunEnded []
+  | MAppends th ts => concat (map (fun t => MTarget (nth_thread l th) :: locked_append t []) ts)
   end.
 
 (* session ids of the actors of a case: distinct, and unused by anything a set-up history writes *)
@@ -140,5 +144,4 @@ Definition check_case_mix (c : case_mix) : bool := lN_eqb (model_obs_mix c) (mx_
 
 (* an actor runs at most one run (its session stream is numbered by ONE run-local counter) *)
 Definition mop_ok (cop_ok : cop -> bool) (o : mop) : bool :=
-  match o with MOp c => cop_ok c | MRun ts _ => forallb is_sess ts end.
-Definition is_run (o : mop) : bool := match o with MRun _ _ => true | MOp _ => false end.
+  match o with MOp c => cop_ok c | MRun ts _ => forallb is_sess ts | MAppends _ ts => forallb is_cont ts end.
